@@ -242,7 +242,7 @@ class SleepWorld:
             self.cv.notify_all()
         ev.wait()
 
-    def _wait_all_parked(self, real_timeout=20.0):
+    def _wait_all_parked(self, real_timeout=120.0):
         deadline = _real_time.monotonic() + real_timeout
         with self.cv:
             while any(t not in self.parked for t in self.live):
